@@ -119,9 +119,10 @@ class DataFieldBase(FieldBase, metaclass=ABCMeta):
                 super().__init__(grid, data=data_arr, label=label)
 
             else:
-                # initialize empty data and set the valid data
+                # initialize data (including the ghost cells, which boundary
+                # conditions like `normal_*` only set partially) and set the valid data
                 data_arr = number_array(data, dtype=dtype, copy=None)
-                empty_data = np.empty(full_shape, dtype=data_arr.dtype)
+                empty_data = np.zeros(full_shape, dtype=data_arr.dtype)
                 super().__init__(grid, data=empty_data, label=label)
                 self.data = data_arr
 
